@@ -238,7 +238,6 @@ def make_history(case):
     mons = ["draws"]
     h = configs.history_from(case, mons, post=["results"])
     for s in h["steps"]:
-        s["timeout"] = 300
         s["draw_batches_limit"] = 10000
     return h
 
